@@ -975,6 +975,12 @@ pub fn run_nb(ctx: &mut Ctx) {
     for (i, f) in FEATS.iter().enumerate() { ctx.tr.scenario(&format!("c20snd-nb-permutation-{}", i)); nb_permutation(ctx, *f); }
 }
 
+/// blocking playback only (also run under C09: when pcm_xfer returns, nothing it posted is still with the device)
+pub fn run_xfer(ctx: &mut Ctx) {
+    let nx = ctx.budget(18, 6);
+    for i in 0..nx { ctx.tr.scenario(&format!("c20snd-xfer-{}", i)); xfer_history(ctx, FEATS[(i % 6) as usize], i); }
+}
+
 /// the notification (event) queue only: also run under C19
 pub fn run_notifications(ctx: &mut Ctx) {
     for (i, f) in [0u64, F_IND, F_EV, F_IND | F_EV | F_V1].iter().enumerate() { ctx.tr.scenario(&format!("c20snd-notifications-{}", i)); let n = ctx.budget(300, 10) as usize; notifications(ctx, *f, n); }
